@@ -118,8 +118,10 @@ class CompositeEval(Evaluator):
             if b.r == Rat(S("O")):
                 return Q(a.r, a.is_float, powsym=("pow", a.r, "O"))
             return Q(a.r ** b.r.as_poly(), a.is_float)
-        if isinstance(op, (ast.Add, ast.Sub)):
-            raise Unsupported("additive composite")
+        if isinstance(op, ast.Add):
+            return Q(a.r + b.r, a.is_float and b.is_float)
+        if isinstance(op, ast.Sub):
+            return Q(a.r - b.r, a.is_float and b.is_float)
         raise Unsupported("operator")
 
     def ev_UnaryOp(self, node):
@@ -165,6 +167,8 @@ COMPOSITES = {
     "__pow__": ("a ** k", lambda q: q.powsym == ("pow", Rat(S("S")), "O")),
     "__neg__": ("-a", lambda q: q.powsym is None and q.r == Rat(-S("S"))),
     "__invert__": ("~a", lambda q: q.powsym == ("not", Rat(S("S")))),
+    "__radd__": ("k + v", lambda q: q.powsym is None and q.r == Rat(S("S") + S("O"))),
+    "__rsub__": ("k - v", lambda q: q.powsym is None and q.r == Rat(S("O") - S("S"))),
 }
 
 
